@@ -1730,6 +1730,12 @@ FUNCS = [
                    ("arc.host_id = host;", ""),
                    ("arc.save(&apath)?;", "recorded := some common")],
          paths={}),
+    dict(group="bidir", file="src/bin/copia/bidir.rs", name="run_bisync (the result: from `if conflict_paths.is_empty() {` to the end)", fn="run_bisync", sig=None,
+         slice=("if conflict_paths.is_empty() {", ".into())"), slice_close=1,
+         lean="def bisyncExitGen (conflict_paths : Nat) : Bool := Id.run do\n  -- true = Ok(()) (exit status 0); `conflict_paths` = the number of paths `apply` reported as conflicts",
+         calls={}, paths={},
+         verbatim=[('if conflict_paths.is_empty() { Ok(()) } else { Err(format!( "{} path(s) had conflicts (both versions preserved)", conflict_paths.len() ) .into()) }',
+                    "if conflict_paths == 0 then\n  return true\nelse\n  return false")]),
     dict(group="plan", file="src/bin/copia/plan.rs", name="build_plan",
          sig="fn build_plan( src: &MetaMap, dst: &MetaMap, excludes: &[String], with_delete: bool, ) -> SyncPlan",
          lean="def buildPlan {K : Type} [DecidableEq K] (le : K → K → Bool) (excl : K → Bool)\n"
